@@ -116,6 +116,16 @@ func runSx(r *Rec) {
 		r.Bytes, r.PKind, r.PMsg = hx.B{}, "panic", "SysEx: "+p
 		return
 	}
+	// another message is built before this one is looked at: the bytes handed out for the first must stay what they were
+	// (a caller may well build several messages before sending or parsing any of them)
+	m2 := m
+	m2.DeviceID ^= 0x55
+	m2.Address[0] ^= 0x2A
+	if len(m2.SendingData) > 0 {
+		m2.SendingData = append([]byte{0x7F ^ m2.SendingData[0]}, m2.SendingData[1:]...)
+	}
+	hx.Catch(func() { _ = m2.SysEx() })
+	bt = append([]byte(nil), bt...) // from here on work on a private copy
 	r.Bytes = cp(bt)
 	r.PKind, r.PMsg, r.PV = sxParse(bt)
 
